@@ -56,7 +56,12 @@ fn parts_for(prop: &str, tier: Tier) -> Vec<Box<dyn explore::Harness>> {
             s(SProp::C06),
             Box::new(burst::BurstHarness { prop: "C06", cfgs: burst::configs_many(burst::Side::ServerManyExpire, tier == Tier::Thorough) }),
         ],
-        "C08" => vec![s(SProp::C08)],
+        "C08" => vec![
+            s(SProp::C08),
+            // "at most one response ... only if the handler finished before the request expired":
+            // the expiry bursts of C06 judge exactly that
+            Box::new(burst::BurstHarness { prop: "C08", cfgs: burst::configs_many(burst::Side::ServerManyExpire, tier == Tier::Thorough) }),
+        ],
         "C10" => vec![c(CProp::C10), s(SProp::C10)],
         "C11" => vec![
             c(CProp::C11),
